@@ -14,6 +14,7 @@ CONSTANTS
   NMs = {1, 2, 3, 4, 5, 6}
   Bufs = {0, 1, 3, 16}
   NFs = {1, 2, 4}
+  LawBatches = {}
 INIT SimInit
 NEXT SimNext
 INVARIANTS SimLawsHold ExportAll
